@@ -100,7 +100,7 @@ func runC17(c *Ctx) {
 		c.R.Exhaustive[fmt.Sprintf("all scripts: 3 tracking modes x 4 generators x collisions 0..3 x 2 welcomes x event sequences of length <= %d over {C,R,D,F,O}", maxLen)] = c.Only == ""
 	case "prng":
 		part, parts := c.ArgInt("part", 0), c.ArgInt("parts", 1)
-		total := c.Pick(400, 40000)
+		total := c.Pick(1500, 60000)
 		per := total / parts
 		for i := 0; i < per; i++ {
 			idx := part*per + i
